@@ -64,7 +64,7 @@ def tmpdir():
 
 # ------------------------------------------------------------------------------------------ generators
 ROUTE_STARTS = ["from_list", "one_by_one", "scenario_net", "scenario_each"]
-ROUTE_STEPS = ["add", "add_dup", "remove", "add_from", "deepcopy", "deepcopy_self", "pickle", "xml", "pb", "cutout",
+ROUTE_STEPS = ["add", "add_dup", "remove", "lazy", "add_from", "deepcopy", "deepcopy_self", "pickle", "xml", "pb", "cutout",
                "scenario_copy"]
 
 
@@ -90,6 +90,35 @@ def gen_route(rng, net):
             present.remove(i)
             rest.append(i)
             route.append(["remove", i])
+        elif op == "lazy" and (rest or present):
+            # edits with the index rebuild switched off (rtree=False), closed by a call with the default rtree=True
+            # (documented: "whether rtree should be initialized"), which has to leave a complete index
+            for _ in range(rng.randint(1, 3)):
+                if rest and (not present or rng.random() < 0.5):
+                    i = rest.pop()
+                    present.append(i)
+                    route.append(["add_lazy", i])
+                elif present:
+                    i = rng.choice(present)
+                    present.remove(i)
+                    rest.append(i)
+                    route.append(["remove_lazy", i])
+            r = rng.random()
+            if r < 0.45 and rest:
+                route.append(["remove_absent", rng.choice(rest)])     # an id that is not (or no longer) in the network
+            elif r < 0.55:
+                route.append(["remove_absent", 99999])
+            elif rest and r < 0.8:
+                i = rest.pop()
+                present.append(i)
+                route.append(["add", i])
+            elif present:
+                i = rng.choice(present)
+                present.remove(i)
+                rest.append(i)
+                route.append(["remove", i])
+            else:
+                route.append(["remove_absent", 99999])
         elif op == "add_from" and rest:
             m = rng.randint(1, len(rest))
             part, rest = rest[:m], rest[m:]
@@ -131,7 +160,12 @@ def gen_net_case(rng):
             if sh["k"] == "rect":
                 sh["o"] = 0.0
             o = 0.0 if (net["exact"] or sh["k"] in ("poly", "group")) else rng.choice([0.0, 0.3, -1.1, math.pi / 2])
-            obs.append({"id": 900 + j, "shape": sh, "pos": at, "o": o})
+            ob = {"id": 900 + j, "shape": sh, "pos": at, "o": o}
+            if rng.random() < 0.35:
+                # the obstacle reaches its place by a public history: built elsewhere with the lanelet assignment a file
+                # reader / assign_obstacles_to_lanelets records there, then moved by translate_rotate (dyadic offsets)
+                ob["from"] = [at[0] + rng.choice([-12.0, -6.5, 4.0, 9.25, 30.0]), at[1] + rng.choice([-7.0, -3.5, 3.0, 6.25])]
+            obs.append(ob)
         queries.append({"k": "obstacles", "obs": obs})
     return {"op": "net", "net": net, "route": route, "queries": queries}
 
@@ -385,6 +419,19 @@ def run_route(case):
                 else:
                     net.remove_lanelet(step[1])
                 ops.append(("remove", step[1]))
+            elif op == "add_lazy":
+                (la, m), = fresh_lanelets([step[1]])
+                net.add_lanelet(la, rtree=False)
+                sc = None
+                ops.append(("add", m))
+            elif op == "remove_lazy":
+                net.remove_lanelet(step[1], rtree=False)
+                sc = None
+                ops.append(("remove", step[1]))
+            elif op == "remove_absent":
+                net.remove_lanelet(step[1])
+                sc = None
+                ops.append(("remove", step[1]))
             elif op == "add_from":
                 ls = fresh_lanelets(step[1])
                 other = LaneletNetwork()
@@ -439,10 +486,22 @@ def run_route(case):
     return net, ops, None, last
 
 
-def make_obstacle(o):
-    return StaticObstacle(o["id"], ObstacleType.PARKED_VEHICLE, G.make_shape(o["shape"]),
-                          InitialState(time_step=0, position=np.array(o["pos"], dtype=float), orientation=o["o"],
-                                       velocity=0.0, acceleration=0.0, yaw_rate=0.0, slip_angle=0.0))
+def make_obstacle(o, net=None):
+    def at(pos, **kw):
+        return StaticObstacle(o["id"], ObstacleType.PARKED_VEHICLE, G.make_shape(o["shape"]),
+                              InitialState(time_step=0, position=np.array(pos, dtype=float), orientation=o["o"],
+                                           velocity=0.0, acceleration=0.0, yaw_rate=0.0, slip_angle=0.0), **kw)
+    if o.get("from") is None or net is None:
+        return at(o["pos"])
+    ob = at(o["from"])
+    try:   # what a reader with lanelet assignment records for the place the obstacle was built at
+        ids = set(net.find_lanelet_by_shape(ob.occupancy_at_time(0).shape))
+        cen = set(net.find_lanelet_by_position([np.array(o["from"], dtype=float)])[0])
+    except Exception:  # noqa - the lookups themselves are judged by the other queries
+        return at(o["pos"])
+    ob = at(o["from"], initial_shape_lanelet_ids=ids, initial_center_lanelet_ids=cen)
+    ob.translate_rotate(np.array([o["pos"][0] - o["from"][0], o["pos"][1] - o["from"][1]]), 0.0)
+    return ob
 
 
 def observe_net(case):
@@ -466,7 +525,7 @@ def observe_net(case):
             ob["q"].append({"r": {la.lanelet_id: guarded(lambda: bool(la.contains_points(np.array([q["p"], q["p"]], dtype=float))[0]))
                                   for la in net.lanelets}})
         elif q["k"] == "obstacles":
-            obstacles = [make_obstacle(o) for o in q["obs"]]
+            obstacles = [make_obstacle(o, net) for o in q["obs"]]
             placed = {o.obstacle_id: shape_to_raw(o.occupancy_at_time(0).shape) for o in obstacles}
             per = {la.lanelet_id: guarded(lambda: [o.obstacle_id for o in la.get_obstacles(obstacles, 0)])
                    for la in net.lanelets}
